@@ -118,6 +118,34 @@ func VerifH_C20_names() {
 	checkNames(orig, f.MakeGlyphNames(), n)
 }
 
+// VerifH_C20_ligs: several GSUB rules that generate the same base name: two ligatures for the same first
+// glyph with solver-chosen components and outputs, followed by a single substitution of a glyph that may
+// itself have been named by a ligature rule.
+func VerifH_C20_ligs() {
+	n := 5
+	glyphs := glyf.Glyphs{verifSimpleGlyph(0), verifSimpleGlyph(1), verifSimpleGlyph(2), verifSimpleGlyph(3), verifSimpleGlyph(4)}
+	f := verifTTFont(glyphs)
+	o := f.Outlines.(*glyf.Outlines)
+	orig := []string{".notdef", "A", "B", verifName("name"), verifName("name")}
+	o.Names = append([]string{}, orig...)
+	g := func(tag string, lo, hi glyph.ID) glyph.ID {
+		x := glyph.ID(verifU16(tag))
+		verifAssume(x >= lo && x <= hi)
+		return x
+	}
+	// components among the named glyphs, results among the glyphs whose names are solver-chosen
+	ligs := &gtab.Gsub4_1{Cov: coverage.Table{1: 0}, Repl: [][]gtab.Ligature{{{In: []glyph.ID{g("in", 1, 2)}, Out: g("out", 3, 4)}, {In: []glyph.ID{g("in", 1, 2)}, Out: g("out", 3, 4)}}}}
+	single := &gtab.Gsub1_2{Cov: coverage.Table{g("from", 1, 4): 0}, SubstituteGlyphIDs: []glyph.ID{g("to", 3, 4)}}
+	f.Gsub = &gtab.Info{LookupList: gtab.LookupList{
+		{Meta: &gtab.LookupMetaInfo{LookupType: 4}, Subtables: []gtab.Subtable{ligs}},
+		{Meta: &gtab.LookupMetaInfo{LookupType: 1}, Subtables: []gtab.Subtable{single}},
+	}}
+	got := f.MakeGlyphNames()
+	verifReach("named")
+	checkNames(orig, got, n)
+	verifAssert(verifSame(got, f.MakeGlyphNames()), "asking again returns the same names")
+}
+
 // VerifH_C20_cff: the same rules for a CFF font: after EnsureGlyphNames every glyph reports the generated name.
 func VerifH_C20_cff() {
 	n := 3
